@@ -4,7 +4,7 @@ from __future__ import annotations
 
 import itertools
 
-from vt import core, explore, vloop
+from vt import canon, core, explore, vloop
 
 META = dict(
     level="model_checking",
@@ -55,11 +55,12 @@ def make_proto(nfut=8):
 
 
 def canon_resp(r):
-    return (r._state, bytes(r._raw_response), r._is_chunked, r._had_empty_chunk, r._content_length, r.version, r.code, r.reason, tuple(r.headers), bytes(r.body))
+    # generic walk over __dict__: any state a refactoring adds to the parser is part of the canonical state
+    return canon.canon(r)
 
 
 def canon_proto(p):
-    return (canon_resp(p.current_response), len(p.result_cbs))
+    return (canon_resp(p.current_response), len(p.result_cbs), canon.canon(p, depth=1, skip=("connection", "result_cbs", "current_response", "loop", "transport")))
 
 
 def observe(p):
@@ -153,6 +154,9 @@ def corpus(tier, seed):
         seqs = [s for s in seqs if sum(len(render(m)[0]) for m in s) <= 220][:110]
         # always include the nastiest ones
         seqs += [[r] for r in reps] + [[reps[5], reps[1]], [reps[4], reps[5], reps[2]], [reps[6], reps[5]]]
+        # chunked messages whose chunks are much longer than the 5-byte terminator (state kept across reads inside a chunk must not outlive it)
+        big_chunks = [m for m in msgs if m["framing"] == "chunked" and len(m.get("body", b"")) >= 26 and max(m["chunks"]) >= 10]
+        seqs += [[m] for m in big_chunks[:3]] + [[big_chunks[0], reps[1]]]
     else:
         seqs = singles + pairs + triples
         seqs = [s for s in seqs if sum(len(render(m)[0]) for m in s) <= 260]
